@@ -155,8 +155,23 @@ def build(unit, cfile, workdir, loop_contracts=None, tag="b"):
     entry = unit.get("entry", "harness")
     a = os.path.join(workdir, tag + "_a.gb")
     inc = ["-I" + os.path.join(VERIF, "units", os.path.dirname(unit["template"])), "-I" + os.path.join(VERIF, "units", "common")]
-    C.goto_cc(cfile, entry, a, unit.get("defines"), inc)
     mode = unit.get("mode", "dfcc")
+    for attempt in range(8):
+        try:
+            C.goto_cc(cfile, entry, a, unit.get("defines"), inc)
+            break
+        except C.ToolError as e:
+            # A changed body may mention a member variable no rewrite rule or template knows (e.g. a new guard `if (factor_ != 1.0)`).
+            # In plain (bounded) mode such a symbol is declared as an arbitrary, unconstrained double and the unit is built again:
+            # the obligations then have to hold for every value of it.  Anything else stays a tool error (exit 2, never a violation).
+            m = re.search(r"failed to find symbol '(\w+)'", str(e))
+            if not m or mode != "plain" or attempt == 7:
+                raise
+            with open(cfile) as f:
+                txt = f.read()
+            decl = "double %s; /* auto-declared: unknown member, arbitrary value */\n" % m.group(1)
+            with open(cfile, "w") as f:
+                f.write(decl + txt)
     if mode == "plain":
         return a, ""
     b = os.path.join(workdir, tag + "_b.gb")
